@@ -1,6 +1,7 @@
 """C07 / C08 / C09: secret anonymization.  Correspondence of `FileAnonymizer(anon_pwd=True).anonymize_io` with the
 Lean model (pinned patterns), and the three property oracles on the implementation's own output."""
 import io
+import os
 import re
 
 from . import fa, lineforms as L
@@ -327,6 +328,34 @@ def c07_scope(res, pid, rng, tier):
                 fails.append({"kind": "the secret survives in the output or in an INFO+ log record", "salt": cfgh.salt, "line": ln, "output": out,
                               "detail": "a piece of the secret is left next to the pseudonym, or one of two secrets is kept"})
                 break
+    # (c) the file entry points on a text that contains control characters (NUL, BEL, ESC) somewhere: a config is text, every secret goes
+    import tempfile
+    import shutil
+    from netconan.anonymize_files import anonymize_files as _af
+    dtmp = tempfile.mkdtemp(prefix="ncverif_")
+    try:
+        secs = ["Zq%sx7" % re.sub(r"[^A-Za-z0-9]", "k", L.gen_secret(rng, "text")) for _ in range(3)]
+        body = "! exported\x00 by tool\n" + "username bob password 0 %s\n" % secs[0] + "snmp-server community %s RO\n" % secs[1] \
+            + "banner \x07\x1b[0m\n enable password %s\n" % secs[2]
+        for nm, txt in (("nul.cfg", body), ("plain.cfg", body.replace("\x00", ""))):
+            os.makedirs(os.path.join(dtmp, "in"), exist_ok=True)
+            with open(os.path.join(dtmp, "in", nm), "w", newline="") as f_:
+                f_.write(txt)
+        with fa.LogCap():
+            _af(os.path.join(dtmp, "in"), os.path.join(dtmp, "out"), True, False, salt="s")
+        for nm in ("nul.cfg", "plain.cfg"):
+            res.evaluations += 1
+            try:
+                o_ = open(os.path.join(dtmp, "out", nm), newline="").read()
+            except OSError:
+                o_ = None
+            if o_ is None or any(sv in o_ for sv in secs):
+                fails.append({"kind": "the secret survives in the output or in an INFO+ log record", "entry_point": "anonymize_files (directory)",
+                              "file": nm, "file_text": body if nm == "nul.cfg" else body.replace("\x00", ""), "output": o_})
+    except Exception as e:  # noqa
+        fails.append({"kind": "anonymize_io raised on a recognised line form", "exc": repr(e), "entry_point": "anonymize_files"})
+    finally:
+        shutil.rmtree(dtmp, ignore_errors=True)
     # white space other than blank and tab between the keyword and the secret
     sepl = []
     for sp_ in ("\x0c", "\x0b", "\x1c", "\x1e", "\x85", "\xa0", "\u2028", " \x0c ", "\t\x0b"):
@@ -475,6 +504,61 @@ def c08_scope(res, pid, rng, tier):
                 fails.append({"kind": "equal secrets received different replacements", "salt": cfg.salt, "secret": s, "line": ln, "output": out,
                               "replacement_now": canon, "replacement_before": lit[key]})
             lit.setdefault(key, canon)
+        # quoted secrets that contain an escaped quote, next to the same text unquoted and to a sibling that differs behind the quote
+        q1, q2 = 'pq%d\\"cd' % rng.randint(10, 99), None
+        q2 = q1[:-2] + "ef"
+        ql = ['set system login user a authentication secret "%s"\n' % q1, 'set system login user b authentication secret "%s"\n' % q2,
+              'key "%s"\n' % q1, 'key "%s"\n' % q2, 'set system login user c authentication secret "%s"\n' % q1]
+        try:
+            oq, _ = run_lines(cfg, ql)
+        except Exception as e:  # noqa
+            fails.append({"kind": "anonymize_io raised", "exc": repr(e), "salt": cfg.salt, "lines": ql})
+            oq = []
+        if oq:
+            res.evaluations += len(ql)
+            rq = [re.findall(r'"([^"]*(?:\\"[^"]*)*)"', o_) for o_ in oq]
+            if any('cd' in o_ or 'ef"' in o_ for o_ in oq):
+                fails.append({"kind": "equal secrets received different replacements", "salt": cfg.salt, "lines": ql, "outputs": oq,
+                              "detail": "a quoted secret that contains an escaped quote is cut at the inner quote: the rest of it stays on the line"})
+            elif rq[0] and rq[1] and (rq[0] == rq[1] or rq[0] != rq[4]):
+                fails.append({"kind": "different secrets received the same replacement" if rq[0] == rq[1] else "equal secrets received different replacements",
+                              "salt": cfg.salt, "lines": ql, "outputs": oq})
+        # two `$9$` strings with the same characters behind the salt character and its filler but different salt characters:
+        # different plaintexts, hence different secrets (the salt character starts the decoding chain)
+        from .jun_checks import ref_encrypt as _enc, FAMILY as _FAM
+        payload = lambda e_: e_[4 + 3 - next(i for i, f in enumerate(_FAM) if e_[3] in f):]     # noqa: E731  (behind salt character and filler)
+        pairs9 = []
+        base = "bc-ospf-key%d" % rng.randint(0, 99)
+        i0 = rng.randrange(len(ALPHA))
+        for di in range(len(ALPHA)):
+            i_ = (i0 + di) % len(ALPHA)
+            j_ = (i_ + 1) % len(ALPHA)
+            for a_ in "bcdefg":
+                e1 = _enc(a_ + base, ALPHA[i_])
+                for b_ in "abcdefgh":
+                    e2 = _enc(b_ + base, ALPHA[j_])
+                    if b_ != a_ and payload(e1) == payload(e2):
+                        pairs9.append((e1, e2))
+            if len(pairs9) >= 3:
+                break
+        for e1, e2 in pairs9[:3]:
+            l9 = ['secret "%s"\n' % e1, 'secret "%s"\n' % e2, 'secret "%s"\n' % e1]
+            try:
+                o9, _ = run_lines(cfg, l9)
+            except Exception as e:  # noqa
+                fails.append({"kind": "anonymize_io raised", "exc": repr(e), "salt": cfg.salt, "lines": l9})
+                continue
+            res.evaluations += 3
+            r9 = [extract(o_, 'secret "{}"', "{}") for o_ in o9]
+            d9 = []
+            for r_ in r9:
+                try:
+                    d9.append(ref_decrypt(r_))
+                except Exception:  # noqa
+                    d9.append(None)
+            if None in d9 or d9[0] == d9[1] or d9[0] != d9[2]:
+                fails.append({"kind": "different secrets received the same replacement" if d9[0] == d9[1] else "equal secrets received different replacements",
+                              "salt": cfg.salt, "lines": l9, "outputs": o9, "plaintexts": [ref_decrypt(e1), ref_decrypt(e2)]})
         # two different secrets on one line that is handled by a group of two patterns (auth / priv): each gets its own pseudonym,
         # the one it has on every other line
         x_, y_ = "Au7h" + L.gen_secret(rng, "text").strip("-")[:8] + "q", "Pr1v" + L.gen_secret(rng, "text").strip("-")[:8] + "z"
@@ -678,6 +762,11 @@ def c09_scope(res, pid, rng, tier):
             s_ = L.gen_secret(rng, cls_)
             for term, tail_ in ((",", " privilege 15"), (";", " ## SECRET-DATA"), ("]", " extra"), ("}", " more")):
                 extra.append((f_.format(s_) + term + tail_ + "\n", "", f_.replace("{}", "{}" + term + tail_), s_))
+        # (iv) minified JSON / XML: further fields follow the key on the same line and stay where they are
+        k32 = "".join(rng.choice("0123456789abcdef") for _ in range(31)) + "e"
+        extra.append(('{"PreSharedKey": "%s", "TunnelName": "left-uplink/30", "Note": "x"}\n' % k32, "",
+                      '{{"PreSharedKey": "{}", "TunnelName": "left-uplink/30", "Note": "x"}}'.replace("{{", "{").replace("}}", "}"), k32))
+        extra.append(('<a><pre_shared_key>%s</pre_shared_key><b>"q"</b></a>\n' % k32, "", '<a><pre_shared_key>{}</pre_shared_key><b>"q"</b></a>', k32))
         # (iii) the two AWS forms with a 32-character key of every class a key can have (free text, all digits, hexadecimal)
         for f_ in L.AWS_FORMS:
             for s_ in ("".join(rng.choice(L.B64.replace("/", "").replace("+", "")) for _ in range(31)) + "Z",
